@@ -265,21 +265,19 @@ Theorem float_text_one_token : forall d m e, sql_lex d (emit_float m e) = [TNumb
 Proof. exact emit_float_one_token. Qed.
 Print Assumptions float_text_one_token.
 
-(* What translate_literal really emits is emit_float_rust: the word inf when the value rounds to infinity in binary64.
-   FULL STATEMENT (false, finding F14):  forall m e, sql_number_value (emit_float_rust m e) = Some (norm_dec m e). *)
-Theorem float_roundtrip_refuted :
-  exists m e, sql_number_value (emit_float_rust m e) = None /\ forall d, sql_lex d (emit_float_rust m e) = [TWord s_inf].
-Proof. exists 1, 400%Z. split; [vm_compute; reflexivity | intro d; vm_compute; reflexivity]. Qed.
-Print Assumptions float_roundtrip_refuted.
+(* What translate_literal emits is emit_float_rust: since fix 1ae3488 a value that rounds to infinity in binary64 is a compile
+   error (None) instead of the word inf (finding F14, fixed; float_roundtrip_refuted / _partial described it).
+   FULL STRENGTH: whatever translate_literal emits for a float literal is one number token denoting exactly the
+   decimal value of the literal's spelling. *)
+Theorem float_roundtrip : forall d m e t, emit_float_rust m e = Some t ->
+  sql_number_value t = Some (norm_dec m e) /\ sql_lex d t = [TNumber t].
+Proof. intros d m e t H. split; [exact (emit_float_rust_value m e t H) | exact (emit_float_rust_one_token d m e t H)]. Qed.
+Print Assumptions float_roundtrip.
 
-Theorem float_roundtrip_partial : forall d m e, overflows m e = false ->
-  sql_number_value (emit_float_rust m e) = Some (norm_dec m e) /\
-  sql_lex d (emit_float_rust m e) = [TNumber (emit_float_rust m e)].
-Proof.
-  intros d m e H. split; [exact (emit_float_rust_value m e H)|].
-  unfold emit_float_rust. rewrite H. apply emit_float_one_token.
-Qed.
-Print Assumptions float_roundtrip_partial.
+(* the rejected spellings are exactly those whose value is at least 2^1024 - 2^970 (half an ulp above f64::MAX) *)
+Theorem float_rejected_iff_overflow : forall m e, emit_float_rust m e = None <-> overflows m e = true.
+Proof. intros m e. unfold emit_float_rust. destruct (overflows m e); split; congruence. Qed.
+Print Assumptions float_rejected_iff_overflow.
 
 Theorem bool_roundtrip : forall d b, sql_lex d (emit_bool b) = [TWord (emit_bool b)].
 Proof. exact LiteralProofs.bool_roundtrip. Qed.
@@ -343,7 +341,8 @@ Example c08_ex_float_layout :
   ([49;46;53], [49;48;48;48;46;48], [49;101;49;54], [48;46;48;48;48;49], [49;101;45;53], [54;46;48;50;101;50;51], [48;46;48]).
 Proof. vm_compute. reflexivity. Qed.       (* 1.5  1000.0  1e16  0.0001  1e-5  6.02e23  0.0 *)
 Example c08_ex_float_class : in_class 123456789012345 (-20) = true /\ in_class 1234567890123456 0 = false
-                             /\ overflows 17976931348623157 292 = false /\ overflows 17976931348623159 292 = true /\ overflows 1 999999 = true.
+                             /\ overflows 17976931348623157 292 = false /\ overflows 17976931348623159 292 = true /\ overflows 1 999999 = true
+                             /\ emit_float_rust 1 400 = None /\ emit_float_rust 25 (-1) = Some [50;46;53].
 Proof. vm_compute. repeat split; reflexivity. Qed.
 Example c08_ex_context : closed_prefix std_sql [83;69;76;69;67;84;32] = true.                       (* "SELECT " *)
 Proof. vm_compute. reflexivity. Qed.
